@@ -1,5 +1,5 @@
 (** One entry point for the extracted model runner: component number, numbers in, numbers out. *)
-From Remoc Require Import Lib.Base Run.RunCodec Run.RunRobsVec Run.RunRobsDeque Run.RunRobsList.
+From Remoc Require Import Lib.Base Run.RunCodec Run.RunRobsVec Run.RunRobsDeque Run.RunRobsList Run.RunRobsMap Run.RunRobsSet.
 
 Definition run (comp : N) (inp : list N) : list N :=
   match comp with
@@ -7,5 +7,7 @@ Definition run (comp : N) (inp : list N) : list N :=
   | 131 => run_robs_vec inp
   | 132 => run_robs_deque inp
   | 133 => run_robs_list inp
+  | 134 => run_robs_map inp
+  | 135 => run_robs_set inp
   | _ => [97]
   end.
